@@ -145,11 +145,9 @@ func (c *Context) Child(id string) *PID {
 
 // Children returns all child PIDs for the current process.
 func (c *Context) Children() []*PID {
-	pids := make([]*PID, c.children.Len())
-	i := 0
+	pids := make([]*PID, 0, c.children.Len())
 	c.children.ForEach(func(_ string, child *PID) {
-		pids[i] = child
-		i++
+		pids = append(pids, child)
 	})
 	return pids
 }
